@@ -624,8 +624,10 @@ class BatchProxy(object):
 
     def _pyroInvoke(self, name, args, kwargs):
         # ignore all parameters, we just need to execute the batch
-        results = self.__proxy._pyroInvokeBatch(self.__calls)
-        self.__calls = []  # clear for re-use
+        try:
+            results = self.__proxy._pyroInvokeBatch(self.__calls)
+        finally:
+            self.__calls = []  # clear for re-use
         return self.__resultsgenerator(results)
 
 
